@@ -5,7 +5,7 @@ every input: constructors store (as_ptr, len) of one and the same argument; conv
 the same view; no branch on the length; checked str conversions return `from_utf8*` of exactly (data, len); unchecked ones are
 confined to `unsafe fn`; enum/tuple conversions map variant V to variant V and payload field i to field i by move.
 """
-from lib import facts, mir, report
+from lib import facts, mir, report, sem
 
 VIEWS = ("cglue::slice::CSliceRef", "cglue::slice::CSliceMut")
 PTR_GETTERS = ("core::slice::<impl [T]>::as_ptr", "core::slice::<impl [T]>::as_mut_ptr", "core::str::<impl str>::as_ptr",
@@ -77,6 +77,7 @@ def check_rows(ck):
     fns = f.fns("cglue-lib")
     adts = {a["path"]: a for a in f.adts("cglue-lib")}
     n_ctor = n_back = n_utf = n_enum = n_tup = 0
+    ev = sem.Evaluator({x["path"]: x for x in fns}, adts, inline=lambda p: p.startswith(("cglue::", "<cglue::")) or "::{closure" in p)
     # functions of slice.rs that rebuild a slice from a view (each one is checked by S-back-ptr-len below): other conversions may
     # delegate to them instead of calling from_raw_parts themselves
     back_fns = set()
@@ -163,6 +164,29 @@ def check_rows(ck):
                 variants = {v["name"]: int(v["discr"]) for v in adts[src_adt]["variants"]}
             if not ck.require(variants is not None, "variants of %s" % src_adt):
                 continue
+            # semantic form: for every variant V of the source, the result is variant V of the target with payload field i moved to field i
+            arg = ("sym", "arg")
+            ev.hint(arg, src_adt)
+            outs = ev.run(fn, [arg])
+            if outs and not any(o.kind == "stuck" for o in outs):
+                by_var = {}
+                for o in outs:
+                    vs = [c[2] for c in o.conds if c[0] == "discr" and c[1] == arg]
+                    by_var.setdefault(vs[0] if vs else None, []).append(o)
+                ck.ob("E-all-variants", key, sorted(k for k in by_var if k is not None) == sorted(variants) and None not in by_var,
+                      "%s does not decide by the variant of its argument: cases %s, source has %s" % (fn["path"], sorted(map(str, by_var)), sorted(variants)))
+                for vname, os_ in sorted((k, v) for k, v in by_var.items() if k is not None):
+                    for o in os_:
+                        r = sem.strip(o.ret) if o.kind == "ret" else ("?",)
+                        ck.ob("E-variant-preserved", "%s/%s" % (key, vname), r[0] == "agg" and r[3] == vname,
+                              "%s maps source variant `%s` to %s" % (fn["path"], vname, sem.fmt(o.ret) if o.kind == "ret" else o.kind), sample={"fn": fn["path"], "variant": vname})
+                        if r[0] == "agg" and r[3] == vname:
+                            for idx, x in enumerate(r[4]):
+                                ck.ob("E-payload-moved", "%s/%s.%d" % (key, vname, idx), sem.strip(x) == ("pay", arg, vname, idx),
+                                      "%s: payload %d of `%s` is %s, expected the moved payload of the same source variant" % (fn["path"], idx, vname, sem.fmt(x)))
+                        ck.ob("E-no-calls", "%s/%s" % (key, vname), not [e for e in o.effects if e[0] in ("call", "icall", "drop")],
+                              "%s calls functions or drops a payload while converting `%s`: %s" % (fn["path"], vname, o))
+                continue
             # the switch on the argument's discriminant
             sw = [(i, body.blocks[i]["t"]) for i in sorted(live) if body.blocks[i]["t"]["k"] == "switch"]
             ok_sw = len(sw) == 1 and body.origin_operand(sw[0][1]["o"]) == ("discr", ("arg", 1))
@@ -190,6 +214,24 @@ def check_rows(ck):
             ck.ob("E-no-calls", key, not body.calls(), "%s calls functions while converting (payload could be cloned or dropped)" % fn["path"])
         if it == "std::convert::From" and fn["name"] == "from" and "/tuple.rs" in fn["span"]:
             n_tup += 1
+            arg = ("sym", "arg")
+            outs = ev.run(fn, [arg])
+            if len(outs) == 1 and outs[0].kind == "ret":
+                r = sem.strip(outs[0].ret)
+                src = isf.split("<")[0]
+                n_in = len(adts[src]["variants"][0]["fields"]) if src in adts else None
+                src_ty = fn["inputs"][0].split("<")[0]
+                if n_in is None and src_ty in adts:
+                    n_in = len(adts[src_ty]["variants"][0]["fields"])
+                ok_shape = r[0] == "agg" and (n_in is None or len(r[4]) == n_in)
+                ck.ob("T-arity", key, ok_shape, "%s drops or adds tuple elements: %s" % (fn["path"], sem.fmt(outs[0].ret)))
+                if r[0] == "agg":
+                    for idx, x in enumerate(r[4]):
+                        x = sem.strip(x)
+                        ck.ob("T-field-preserved", "%s.%d" % (key, idx), x[0] == "fld" and x[1] == arg and x[2] == idx,
+                              "%s: element %d is %s, expected element %d of the argument" % (fn["path"], idx, sem.fmt(x), idx), sample={"fn": fn["path"], "elem": idx})
+                ck.ob("T-no-calls", key, not [e for e in outs[0].effects if e[0] in ("call", "icall", "drop")], "%s is not a plain field shuffle: %s" % (fn["path"], outs[0]))
+                continue
             ret = None
             for i in sorted(live):
                 for s in body.blocks[i]["s"]:
@@ -204,7 +246,7 @@ def check_rows(ck):
             n_in = len(adts[isf.split("<")[0]]["variants"][0]["fields"]) if isf.split("<")[0] in adts else len(ret["ops"])
             ck.ob("T-arity", key, len(ret["ops"]) == n_in or isf.startswith("("), "%s drops or adds tuple elements" % fn["path"])
             ck.ob("T-no-calls", key, not body.calls() and not has_switch(body), "%s is not a plain field shuffle" % fn["path"])
-    ck.floor("slice view constructors", n_ctor, 5)
+    ck.floor("slice view constructors", n_ctor, 3)
     ck.floor("from_raw_parts conversions in slice.rs", n_back, 9)
     ck.floor("utf-8 conversion sites", n_utf, 6)
     ck.floor("enum From impls", n_enum, 4)
